@@ -644,12 +644,27 @@ func cmdCheck(prop string, args []string) int {
 	// violations: group by (rule, known?) and process one representative per group
 	exit := 0
 	knownSeen := map[string]int{}
+	knownSites := map[string]map[string]int{} // finding -> rule@innermost library function of a panic -> runs
+	noteSite := func(id string, f failure) {
+		if knownSites[id] == nil {
+			knownSites[id] = map[string]int{}
+		}
+		site := f.Rule
+		if f.Rule == "panic" {
+			site += "@" + panicSite(f.Stack)
+		}
+		if os.Getenv("VCHECK_DEBUG_SITES") != "" && knownSites[id][site] == 0 {
+			fmt.Fprintf(os.Stderr, "--- first %s of %s, tags %v:\n%s\n%s\n", site, id, f.Tags, f.Msg, f.Stack)
+		}
+		knownSites[id][site]++
+	}
 	reported := map[string]bool{}
 	nViol := 0
 	var violSamples []interface{}
 	for _, v := range viols {
 		if k := matchKnown(known, prop, v.f); k != nil {
 			knownSeen[k.ID]++
+			noteSite(k.ID, v.f)
 			continue
 		}
 		nViol++
@@ -667,6 +682,7 @@ func cmdCheck(prop string, args []string) int {
 		if rf.Violation != nil {
 			if k := matchKnown(known, prop, *rf.Violation); k != nil {
 				knownSeen[k.ID]++
+				noteSite(k.ID, *rf.Violation)
 				nViol--
 				os.Remove(path)
 				continue
@@ -724,6 +740,7 @@ func cmdCheck(prop string, args []string) int {
 		"real_components":              realComponents,
 		"stub_components":              stubComponents,
 		"known_findings_seen":          knownSeen,
+		"known_findings_sites":         knownSites,
 		"other_property_oracles_fired": otherProps,
 		"violation_samples":            violSamples,
 		"tree":                         tree,
@@ -754,10 +771,10 @@ func panicSite(stack string) string {
 			if i := strings.Index(l, "shmipc-go."); i >= 0 {
 				l = l[i+len("shmipc-go."):]
 			}
-			if i := strings.IndexByte(l, '('); i > 0 && !strings.HasPrefix(l, "(") {
+			if i := strings.LastIndexByte(l, '('); i > 0 { // drop the argument list
 				l = l[:i]
 			}
-			return l
+			return strings.TrimSpace(l)
 		}
 	}
 	return ""
